@@ -22,9 +22,17 @@ CODES = {
     3: ("oracle", "a returned allocation is not the unmodified output of one of the rules"),
     4: ("model", "social_welfare_comparison differs from the Gallina model (set of sets)"),
     5: ("model", "popularity_comparison differs from the Gallina model (set of sets)"),
+    6: ("oracle", "a returned allocation is not the outcome of any of the rules called on its own with the caller's "
+                  "initial allocation (the rules were not run on the election / initial allocation given)"),
     core.RAISED: ("oracle", "the call raised / the interpreter died outside the solver"),
 }
-RULE = ("elections with 1..6 voters, 2..6 projects, all four ballot types, Profile/MultiProfile (duplicated ballots), "
+RULE = ("three streams: general (1/2); NEAR-TIE (1/3): two rules with different outcomes whose welfare differs by a relative "
+        "1e-7..1e-17 (costs c and c(1+eps) under Cost_Sat / Relative_* / sqrt / log measures, scores beyond 2**53 differing "
+        "by one) or whose supports differ by one voter in 10^4..10^5 (multiprofile multiplicities) -- the better outcome "
+        "must be returned alone; ZERO-COST (1/6): supported zero-cost projects, equal shares first, initial allocation "
+        "handed over as BudgetAllocation / tuple / generator / list.  Every case also runs each rule ON ITS OWN on a freshly "
+        "built election with a fresh copy of the initial allocation: every returned allocation must be one of those "
+        "outcomes.  General stream: elections with 1..6 voters, 2..6 projects, all four ballot types, Profile/MultiProfile (duplicated ballots), "
         "pairs/triples of rules from {greedy x measure, equal shares x additive measure, sequential Phragmen (approval), "
         "welfare maximiser PRIMAL_DUAL x additive measure}, comparison measure over every shipped measure accepted by "
         "the ballot type, optional initial allocation; non-trivial = distinct election in which the rules produced at "
@@ -57,7 +65,7 @@ def budget(tier):
     return 1500 if tier == "quick" else 20000
 
 
-def gen(rng, i, tier):
+def _gen_general(rng, i, tier):
     kind = rng.choice(["approval"] * 9 + ["cardinal"] * 4 + ["cumulative"] * 3 + ["ordinal"] * 4)
     n = rng.choice([2, 3, 4, 4, 5, 5, 6, 6])
     pool = rng.choice(c03.POOLS)
@@ -107,6 +115,133 @@ def gen(rng, i, tier):
             "solver": cmp_sat in c03.SOLVER_SATS}
 
 
+def _gen_near(rng, i, tier):
+    """two rules produce two different outcomes whose welfare / support differ by very little: the better one must be
+    returned alone by both comparisons (any rounding or float short-cut reports a tie or the wrong winner)"""
+    v = rng.randrange(4)
+    multi = rng.random() < 0.5
+    mults = None
+    if v in (0, 1):
+        # costs c and c(1+eps), only one fits; every voter approves both
+        eps = Fraction(1, 10 ** rng.choice([7, 7, 8, 9, 10, 13, 17]))
+        c = pb.F(rng.choice([1, 1, 2, "1/3", 1000]))
+        costs = [c, c * (1 + eps)]
+        b = costs[1]
+        nvot = rng.choice([1, 2, 3])
+        ballots = [[0, 1] for _ in range(nvot)]
+        kind = "approval"
+        rules = [{"rule": "greedy", "sat": "Cardinality_Sat", "tb": "lexico"},       # -> the cheaper project p0
+                 {"rule": "greedy", "sat": "Cost_Sat", "tb": "max_cost"}]           # density tie -> the dearer p1
+        cmp_sat = rng.choice(["Cost_Sat", "Cost_Sat", "Relative_Cost_Approx_Normaliser_Sat", "Additive_Cost_Sqrt_Sat",
+                              "Cost_Sqrt_Sat", "Additive_Cost_Log_Sat"])
+        if v == 1:                                       # a third, clearly worse, outcome
+            costs.append(c / 2)
+            ballots = [bl + [2] for bl in ballots[:1]] + ballots[1:]
+            rules.append({"rule": "greedy", "sat": "Cardinality_Sat", "tb": "min_cost"})
+    elif v == 2:
+        # scores beyond 2**53 that differ by one
+        kind = rng.choice(["cardinal", "cumulative"])
+        big = 2 ** rng.choice([53, 54, 60, 64]) + rng.randrange(0, 1000)
+        costs = [Fraction(1), Fraction(1)]
+        b = Fraction(1)
+        ballots = [{"0": "%d/1" % big, "1": "%d/1" % (big + 1)}]
+        if rng.random() < 0.5:
+            ballots.append({"0": "1/1", "1": "1/1"})
+        rules = [{"rule": "greedy", "sat": "Cardinality_Sat", "tb": "lexico"},       # tie -> p0
+                 {"rule": "greedy", "sat": "Additive_Cardinal_Sat", "tb": "lexico"}]  # -> p1 (one more point)
+        cmp_sat = "Additive_Cardinal_Sat"
+    else:
+        # supports m and m+1 through multiplicities of a multiprofile
+        kind = "approval"
+        m = rng.choice([10 ** 4, 5 * 10 ** 4, 10 ** 5]) + rng.randrange(0, 50)
+        costs = [Fraction(1), Fraction(2)]
+        b = Fraction(2)
+        ballots = [[0], [1]]
+        mults = [m, m + 1]
+        multi = True
+        rules = [{"rule": "greedy", "sat": "Cardinality_Sat", "tb": "lexico"},       # m/1 > (m+1)/2 -> p0
+                 {"rule": "greedy", "sat": "Cost_Sat", "tb": "lexico"}]             # m < m+1 -> p1
+        cmp_sat = rng.choice(["Cardinality_Sat", "CC_Sat"])
+    if rng.random() < 0.5:
+        rules.reverse()
+    case = {"kind": kind, "costs": [pb.qs(x) for x in costs], "budget": pb.qs(b), "ballots": ballots, "multi": multi,
+            "rules": rules, "cmp": cmp_sat, "init": [], "solver": False, "stream": "near_tie"}
+    if mults:
+        case["mults"] = mults
+    return case
+
+
+def _gen_zero(rng, i, tier):
+    """supported zero-cost projects + an initial allocation handed over as a BudgetAllocation: a rule that adds the
+    free projects to the object it was given would change what the rules after it start from"""
+    case = _gen_general(rng, i, tier)
+    while case["solver"]:
+        case = _gen_general(rng, i, tier)
+    kind = case["kind"]
+    n = len(case["costs"])
+    zs = rng.sample(range(n), rng.choice([1, 1, 2]) if n > 2 else 1)
+    for z in zs:
+        case["costs"][z] = "0/1"
+    # somebody supports the free projects
+    for bl in case["ballots"][: max(1, len(case["ballots"]) // 2)]:
+        for z in zs:
+            if kind in ("approval", "ordinal"):
+                if z not in bl:
+                    bl.append(z)
+            else:
+                bl[str(z)] = "1/1"
+    if kind == "approval":
+        case["ballots"] = [sorted(set(bl)) for bl in case["ballots"]]
+    first = {"rule": "mes", "sat": "Cardinality_Sat"}                       # free supported projects have sat 1
+    later = rng.choice([{"rule": "mes", "sat": "Cost_Sat"}, {"rule": "maxw", "sat": "Cost_Sat"},
+                        {"rule": "mes", "sat": "Cost_Sat"}] + ([{"rule": "phragmen"}] if kind == "approval" else []))
+    case["rules"] = [first, later] + ([rng.choice(case["rules"])] if rng.random() < 0.4 else [])
+    costs = [pb.F(c) for c in case["costs"]]
+    cand = [j for j in range(n) if j not in zs and costs[j] <= pb.F(case["budget"])]
+    case["init"] = [rng.choice(cand)] if (cand and rng.random() < 0.7) else []
+    case["stream"] = "zero_cost"
+    return case
+
+
+def gen(rng, i, tier):
+    r = i % 6
+    if r == 3:
+        case = _gen_zero(rng, i, tier)
+    elif r in (4, 5):
+        case = _gen_near(rng, i, tier)
+    else:
+        case = _gen_general(rng, i, tier)
+        case["stream"] = "general"
+    case["init_form"] = rng.choice(["list", "budgetallocation", "budgetallocation", "tuple", "genexpr"])
+    return case
+
+
+def _make_profile(case, inst, projs):
+    if case.get("mults"):
+        lp = pb.make_profile(case["kind"], inst, projs, case["ballots"], False)
+        mp = lp.as_multiprofile()
+        for bl, m in zip(lp, case["mults"]):
+            mp[bl.frozen()] = int(m)
+        return mp
+    return pb.make_profile(case["kind"], inst, projs, case["ballots"], case["multi"])
+
+
+def _init_arg(case, projs):
+    from pabutools.rules import BudgetAllocation
+
+    items = [projs[j] for j in case["init"]]
+    form = case.get("init_form", "list")
+    if not items and form == "list":
+        return None
+    if form == "budgetallocation":
+        return BudgetAllocation(items)
+    if form == "tuple":
+        return tuple(items)
+    if form == "genexpr":
+        return (p for p in items)
+    return items
+
+
 def impl(case):
     """CBC occasionally dead-locks inside the C library: for solver-reaching cases a watchdog thread kills the worker
     (the case is then discarded as a solver fault and the remaining cases are resumed)"""
@@ -129,8 +264,9 @@ def _impl(case):
         pb.install_solver_guard()
         pb.solver_reset()
     inst, projs = pb.make_instance(case["costs"], case["budget"])
-    prof = pb.make_profile(case["kind"], inst, projs, case["ballots"], case["multi"])
+    prof = _make_profile(case, inst, projs)
     recorded = []
+    plain = []
 
     def wrap(rule):
         def f(instance, profile, **kw):
@@ -140,6 +276,8 @@ def _impl(case):
         return f
     seq, params = [], []
     for r in case["rules"]:
+        plain.append({"greedy": R.greedy_utilitarian_welfare, "mes": R.method_of_equal_shares,
+                      "maxw": R.max_additive_utilitarian_welfare, "phragmen": R.sequential_phragmen}[r["rule"]])
         if r["rule"] == "greedy":
             seq.append(wrap(R.greedy_utilitarian_welfare))
             params.append({"sat_class": getattr(S, r["sat"]), "tie_breaking": c03._tie(r["tb"])})
@@ -153,18 +291,26 @@ def _impl(case):
             seq.append(wrap(R.sequential_phragmen))
             params.append({})
     cmp_cls = getattr(S, case["cmp"])
-    init = [projs[j] for j in case["init"]] if case["init"] else None
-    swc = R.social_welfare_comparison(inst, prof, cmp_cls, seq, params, initial_budget_allocation=init)
+    swc = R.social_welfare_comparison(inst, prof, cmp_cls, seq, params,
+                                      initial_budget_allocation=_init_arg(case, projs))
     outs1 = [pb.ranks(r) for r in recorded]
     objs = list(recorded)
     del recorded[:]
-    pop = R.popularity_comparison(inst, prof, cmp_cls, seq, params, initial_budget_allocation=init)
+    pop = R.popularity_comparison(inst, prof, cmp_cls, seq, params,
+                                  initial_budget_allocation=_init_arg(case, projs))
     outs2 = [pb.ranks(r) for r in recorded]
     if outs1 != outs2:
         raise RuntimeError("rules are not deterministic: %r vs %r" % (outs1, outs2))
+    # every rule on its own, on a freshly built election, with a fresh copy of the caller's initial allocation
+    inst2, projs2 = pb.make_instance(case["costs"], case["budget"])
+    prof2 = _make_profile(case, inst2, projs2)
+    alone = []
+    for rule, par in zip(plain, params):
+        alone.append(pb.ranks(rule(inst2, prof2, initial_budget_allocation=R.BudgetAllocation(
+            [projs2[j] for j in case["init"]]), **par)))
     satp = prof.as_sat_profile(cmp_cls)
     elems = list(satp)
-    out = {"outs": outs1,
+    out = {"outs": outs1, "alone": alone,
            "vsat": [[core.qj(s.sat(o)) for s in elems] for o in objs],
            "mults": [int(satp.multiplicity(s)) for s in elems],
            "swc": [pb.ranks(r) for r in swc], "pop": [pb.ranks(r) for r in pop]}
@@ -177,8 +323,8 @@ def _impl(case):
 
 def coq_case(case, o):
     outs = lst([pair(natl(a), core.qlist(v)) for a, v in zip(o["outs"], o["vsat"])])
-    return "(mkCase %s %s %s %s)" % (outs, natl(o["mults"]), lst([natl(w) for w in o["swc"]]),
-                                     lst([natl(w) for w in o["pop"]]))
+    return "(mkCase %s %s %s %s %s)" % (outs, natl(o["mults"]), lst([natl(w) for w in o["swc"]]),
+                                        lst([natl(w) for w in o["pop"]]), lst([natl(w) for w in o["alone"]]))
 
 
 def _distinct(o):
@@ -200,7 +346,10 @@ def stats(cases, obs):
          "swc_tie_between_distinct_outcomes": 0, "swc_single_winner_of_several": 0,
          "pop_tie_between_distinct_outcomes": 0, "pop_single_winner_of_several": 0,
          "some_voter_indifferent_between_distinct_outcomes": 0, "swc_and_pop_disagree": 0, "with_init": 0,
-         "solver_reaching": 0}
+         "solver_reaching": 0, "stream": {}, "init_form": {}, "welfare_gap_below_1e-6_abs": 0,
+         "welfare_rel_gap_below_1e-9": 0, "support_gap_one_voter_of_1e4_or_more": 0,
+         "voter_near_indifferent_gap_below_1e-6": 0, "zero_cost_supported_project": 0,
+         "recorded_output_differs_from_rule_alone": 0}
 
     def inc(h, k):
         h[str(k)] = h.get(str(k), 0) + 1
@@ -234,6 +383,37 @@ def stats(cases, obs):
                 indiff = True
         d["some_voter_indifferent_between_distinct_outcomes"] += indiff
         d["with_init"] += bool(c["init"])
+        inc(d["stream"], c.get("stream", "corpus"))
+        inc(d["init_form"], c.get("init_form", "list"))
+        d["recorded_output_differs_from_rule_alone"] += any(sorted(a) != sorted(b_) for a, b_ in zip(o["outs"], o.get("alone", o["outs"])))
+        tots, sups = {}, {}
+        for a, v in zip(o["outs"], o["vsat"]):
+            key = tuple(sorted(a))
+            tots[key] = sum(Fraction(x) * m for x, m in zip(v, o["mults"]))
+        tv = sorted(set(tots.values()))
+        if len(tv) >= 2:
+            gap = tv[-1] - tv[-2]
+            d["welfare_gap_below_1e-6_abs"] += gap < Fraction(1, 10 ** 6)
+            d["welfare_rel_gap_below_1e-9"] += tv[-1] > 0 and gap / tv[-1] < Fraction(1, 10 ** 9)
+        near_v = False
+        for j in range(len(o["mults"])):
+            vals = sorted({Fraction(v[j]) for v in o["vsat"]})
+            if len(vals) >= 2 and vals[-1] - vals[-2] < Fraction(1, 10 ** 6):
+                near_v = True
+        d["voter_near_indifferent_gap_below_1e-6"] += near_v
+        keys_ = list(tots)
+        for key in keys_:
+            sup = 0
+            for j, m in enumerate(o["mults"]):
+                mx = max(Fraction(v[j]) for v in o["vsat"])
+                vj = [Fraction(v[j]) for a, v in zip(o["outs"], o["vsat"]) if tuple(sorted(a)) == key][0]
+                if vj == mx:
+                    sup += m
+            sups[key] = sup
+        sv = sorted(set(sups.values()))
+        d["support_gap_one_voter_of_1e4_or_more"] += len(sv) >= 2 and sv[-1] - sv[-2] == 1 and sv[-1] >= 10 ** 4
+        cs_ = [pb.F(x) for x in c["costs"]]
+        d["zero_cost_supported_project"] += any(cs_[j] == 0 and any((j in bl) if not isinstance(bl, dict) else (str(j) in bl) for bl in c["ballots"]) for j in range(len(cs_)))
         d["solver_reaching"] += bool(c.get("solver"))
     return d
 
